@@ -626,10 +626,11 @@ class KernelEval:
       er = self._elem_ref(fr, tgt.value, pc)
       if er is not None:
         # component store into an array element: arr[i, j][k] = v  (partial write of that element)
-        self._indices(fr, tgt.slice, pc)
+        cidx = self._indices(fr, tgt.slice, pc)
         for ar, eidx in er:
-          acc = self._access(fr, ar, eidx, "w", pc, tgt, value=UNK("component"), stmt=st)
+          acc = self._access(fr, ar, eidx, "w", pc, tgt, value=val if isinstance(val, T) else UNK("component"), stmt=st)
           acc.component = True
+          acc.comp_idx = cidx
         return
       base = self._expr(fr, tgt.value, pc, bound=True)
       idx = self._indices(fr, tgt.slice, pc)
@@ -709,11 +710,12 @@ class KernelEval:
     if isinstance(tgt, ast.Subscript):
       er = self._elem_ref(fr, tgt.value, pc)
       if er is not None:
-        self._indices(fr, tgt.slice, pc)
+        cidx = self._indices(fr, tgt.slice, pc)
         for ar, eidx in er:
           self._access(fr, ar, eidx, "r", pc, tgt, stmt=st)
           acc = self._access(fr, ar, eidx, "w", pc, tgt, value=UNK("component"), stmt=st, rmw=True)
           acc.component = True
+          acc.comp_idx = cidx
         return
       base = self._expr(fr, tgt.value, pc, bound=True)
       idx = self._indices(fr, tgt.slice, pc)
